@@ -219,6 +219,16 @@ func c08text(s c08func, name, form string) string {
 		out.WriteString("lp:\n  %lpv = landingpad { i8*, i32 } cleanup\n  resume { i8*, i32 } %lpv\n")
 	}
 	out.WriteString("}\n")
+	// the addresses of all blocks but the entry (whose address cannot be taken), so that the
+	// binding of %N / %name BLOCK references from outside the body is observable.
+	// (LLVM only reads numeric block labels in a blockaddress that precedes the function.)
+	if len(s.Blocks) > 1 {
+		var bas []string
+		for bi := 1; bi < len(s.Blocks); bi++ {
+			bas = append(bas, fmt.Sprintf("i8* blockaddress(@%s, %%%s)", name, blockRef[bi]))
+		}
+		return fmt.Sprintf("@ba.%s = global [%d x i8*] [%s]\n", name, len(bas), strings.Join(bas, ", ")) + out.String()
+	}
 	return out.String()
 }
 
@@ -309,6 +319,14 @@ func c08build(m *ir.Module, env *c08env, s c08func, name string) *ir.Func {
 			x := blk.NewCallBr(a, []value.Value{cur}, next)
 			cur = x
 		}
+	}
+	if len(blocks) > 1 {
+		// the same table of block addresses as in c08text.
+		var bas []constant.Constant
+		for bi := 1; bi < len(blocks); bi++ {
+			bas = append(bas, constant.NewBlockAddress(f, blocks[bi]))
+		}
+		m.NewGlobalDef("ba."+name, constant.NewArray(types.NewArray(uint64(len(bas)), types.I8Ptr), bas...))
 	}
 	return f
 }
@@ -401,7 +419,15 @@ func funcsByName(canon []llcanon.Entity) map[string]string {
 	m := map[string]string{}
 	for _, e := range canon {
 		if e.Kind == "func" {
-			m[e.Name] = e.Text
+			m[e.Name] += e.Text
+		}
+	}
+	// the table of block addresses of a function belongs to it (see c08text).
+	for _, e := range canon {
+		if strings.HasPrefix(e.Text, "@ba.") {
+			if i := strings.Index(e.Text, " "); i > 4 {
+				m["@"+e.Text[4:i]] += "\n" + e.Text
+			}
 		}
 	}
 	return m
